@@ -121,6 +121,17 @@ func (r *Report) Eval(nontrivialKey string) {
 	}
 }
 
+// EvalDistinct counts one evaluated case of an enumeration whose cases are distinct by construction
+// (odometer over a product): no key is stored, so 10^8 cases cost no memory.
+func (r *Report) EvalDistinct(nontrivial bool) {
+	r.mu.Lock()
+	r.Evaluations++
+	if nontrivial {
+		r.Distinct++
+	}
+	r.mu.Unlock()
+}
+
 func (r *Report) Clause(name string) {
 	r.mu.Lock()
 	r.Clauses[name]++
